@@ -113,6 +113,11 @@ fn scan_buffer(scan: &mut Scan, buf: &Buffer) {
 
 /// an IcyDraw file around hand-made chunks (PNG frame taken from a seed written by the engine)
 pub fn icy_file(frame: &[u8], chunks: &[(String, Vec<u8>)]) -> Vec<u8> {
+    icy_file_modes(frame, chunks, None)
+}
+
+/// the same with the mode fields of the ICED header (buffer type, ice / palette / font mode) replaced
+pub fn icy_file_modes(frame: &[u8], chunks: &[(String, Vec<u8>)], modes: Option<(u16, u8, u8, u8)>) -> Vec<u8> {
     let parts = files::png_split(frame).unwrap_or_default();
     let mut out = Vec::new();
     let mut inserted = false;
@@ -121,7 +126,16 @@ pub fn icy_file(frame: &[u8], chunks: &[(String, Vec<u8>)]) -> Vec<u8> {
             // keep only the ICED header chunk of the seed
             if let Some((kw, _)) = files::ztxt_decode(&c) {
                 if kw == "ICED" {
-                    out.push(c);
+                    match (modes, files::ztxt_decode(&c)) {
+                        (Some((bt, ice, pal, font)), Some((_, mut payload))) if payload.len() >= 11 => {
+                            payload[6..8].copy_from_slice(&bt.to_le_bytes());
+                            payload[8] = ice;
+                            payload[9] = pal;
+                            payload[10] = font;
+                            out.push(files::ztxt_encode("ICED", &payload));
+                        }
+                        _ => out.push(c),
+                    }
                     continue;
                 }
             }
@@ -411,13 +425,17 @@ impl C10 {
                             chunks.push(("LAYER_0".into(), p));
                         }
                     }
-                    let file = icy_file(&frame, &chunks);
-                    match Buffer::from_bytes(std::path::Path::new("x.icy"), false, &file) {
-                        Ok(buf) => {
-                            results += 1;
-                            scan_buffer(&mut scan, &buf);
+                    // under the header the writer made (CP437 buffer) and under every other declared buffer type / mode
+                    // byte, also undefined ones: what a cell may hold does not depend on what the header claims
+                    for modes in [None, Some((0u16, 0u8, 0u8, 0u8)), Some((2, 1, 1, 1)), Some((3, 2, 2, 2)), Some((4, 0, 3, 3)), Some((9, 9, 9, 9)), Some((0xFFFF, 0xFF, 0xFF, 0xFF))] {
+                        let file = icy_file_modes(&frame, &chunks, modes);
+                        match Buffer::from_bytes(std::path::Path::new("x.icy"), false, &file) {
+                            Ok(buf) => {
+                                results += 1;
+                                scan_buffer(&mut scan, &buf);
+                            }
+                            Err(_) => {}
                         }
-                        Err(_) => {}
                     }
                 }
                 "font" => {
@@ -531,7 +549,7 @@ impl Prop for C10 {
         "C10"
     }
     fn rule(&self) -> &'static str {
-        "after every case a raw-bits monitor reads every stored char of every layer, every glyph-table key and every composited cell as u32 (volatile read) and checks 0..=0xD7FF | 0xE000..=0x10FFFF, and re-validates the bytes of every String (titles, font names, macro bodies via hook H5, hyperlinks, palette strings) with str::from_utf8; the verdict-bearing build has debug assertions, so an invalid value passed to char::from_u32_unchecked aborts the worker (attributed to the case). cases: fill-rectangle (DECFRA) character parameter - every value 0..=0x110010 in thorough (every 4th in quick) plus all 2048 surrogates, boundaries, 2^k+-1 up to 2^31-1; all 65536 clipboard cell values under 19 record templates (plain, each single attribute flag bit - 0x8000 marks the cells outside a selection -, all bits set, transparent colours) and the surrogates under all 65536 attribute words; IcyDraw long-form cells with all surrogates / boundaries / random 32-bit values in first and continuation chunks (the surrogates also on the font page of an embedded PSF2 font with 57400 glyphs); layer titles and font names with 8 invalid-UTF-8 classes and random bytes; font data of 1..2^17 glyphs (PSF1, PSF2, create_8, from_basic, re-encoders); all 256x256 hex-macro byte pairs; random DCS/OSC streams. distinct_nontrivial = distinct (kind, first value / payload, accepted count) fingerprints"
+        "after every case a raw-bits monitor reads every stored char of every layer, every glyph-table key and every composited cell as u32 (volatile read) and checks 0..=0xD7FF | 0xE000..=0x10FFFF, and re-validates the bytes of every String (titles, font names, macro bodies via hook H5, hyperlinks, palette strings) with str::from_utf8; the verdict-bearing build has debug assertions, so an invalid value passed to char::from_u32_unchecked aborts the worker (attributed to the case). cases: fill-rectangle (DECFRA) character parameter - every value 0..=0x110010 in thorough (every 4th in quick) plus all 2048 surrogates, boundaries, 2^k+-1 up to 2^31-1; all 65536 clipboard cell values under 19 record templates (plain, each single attribute flag bit - 0x8000 marks the cells outside a selection -, all bits set, transparent colours) and the surrogates under all 65536 attribute words; IcyDraw long-form cells with all surrogates / boundaries / random 32-bit values in first and continuation chunks, each file under the header's own and six other declared buffer types / mode bytes (Unicode, PETSCII, ATASCII, Viewdata, undefined) (the surrogates also on the font page of an embedded PSF2 font with 57400 glyphs); layer titles and font names with 8 invalid-UTF-8 classes and random bytes; font data of 1..2^17 glyphs (PSF1, PSF2, create_8, from_basic, re-encoders); all 256x256 hex-macro byte pairs; random DCS/OSC streams. distinct_nontrivial = distinct (kind, first value / payload, accepted count) fingerprints"
     }
     fn meta(&self, ctx: &Ctx) -> Value {
         json!({"floor_evaluations": 1000, "floor_distinct": ctx.tier.pick(500u64, 2000u64),
